@@ -174,7 +174,7 @@ func runC06Seq(c c06Case, ev *Ev) error {
 	return nil
 }
 
-var c06CIDRs = []string{"10.0.0.0/30", "10.0.0.5/30", "10.0.0.8/29", "10.250.3.77/29", "192.168.1.0/28", "10.9.0.0/27", "172.16.5.0/24", "10.60.0.0/22", "10.250.0.0/16", "100.64.0.0/20"}
+var c06CIDRs = []string{"10.0.0.0/31", "10.0.0.3/31", "10.0.0.0/30", "10.0.0.5/30", "10.255.255.252/30", "0.0.0.0/30", "255.255.255.248/29", "10.0.0.8/29", "10.250.3.77/29", "192.168.1.0/28", "10.9.0.0/27", "172.16.5.0/24", "10.60.0.0/22", "10.250.0.0/16", "100.64.0.0/20"}
 
 func genC06(t *rapid.T) c06Case {
 	c := c06Case{CIDR: rapid.SampledFrom(c06CIDRs).Draw(t, "cidr")}
@@ -193,7 +193,7 @@ func genC06(t *rapid.T) c06Case {
 
 func TestC06Seq(t *testing.T) {
 	ev := newEv("C06")
-	ev.Rule = "sequential alloc/lookup/release sequences on pools /16../30 (incl. unaligned bases) over more sessions than addresses, compared step by step with a set model and closed by a fill-until-refusal conservation check; non-trivial = the sequence wraps the pool (an address released earlier is handed out again); distinct by canonical JSON"
+	ev.Rule = "sequential alloc/lookup/release sequences on pools /16../31 (incl. unaligned bases, a /31 without any usable address, and pools at both ends of the address space) over more sessions than addresses, compared step by step with a set model and closed by a fill-until-refusal conservation check; non-trivial = the sequence wraps the pool (an address released earlier is handed out again); distinct by canonical JSON"
 	runProp(t, ev, "seq", false, genC06, runC06Seq)
 }
 
